@@ -5,7 +5,9 @@ From Helm Require Import Common.Assoc Render.SortLemmas Render.Pipeline Render.P
 Import ListNotations.
 Local Open Scope string_scope.
 
-(* Go map iteration = "the entries in an arbitrary order".  [l], [l'] are two iteration orders
+(* The templates of one render share their values and may write to them ([vstate], threaded
+   through [exec] in execution order), so the execution order is observable.
+   Go map iteration = "the entries in an arbitrary order".  [l], [l'] are two iteration orders
    of the template set; [sh1], [sh1'] two iteration orders of the rendered-files map where
    renderResources collects the notes keys; [sh2], [sh2'] two iteration orders of the
    remaining files where SortManifests (or the error blob) collects the file paths.  The
@@ -13,7 +15,8 @@ Local Open Scope string_scope.
 Theorem C05_order_independent :
   forall (tset : Type) (t0 : tset) (tsrc : Type)
          (parse : tset -> string -> tsrc -> option tset)
-         (exec : tset -> string -> tsrc -> option string)
+         (vstate : Type) (v0 : vstate)
+         (exec : tset -> vstate -> string -> tsrc -> option (string * vstate))
          (split : string -> list string) (head_of : string -> option head)
          (o : opts) (chart_name : string) (crds : list (string * string))
          (sh1 sh1' sh2 sh2' : list (string * string) -> list (string * string))
@@ -21,8 +24,8 @@ Theorem C05_order_independent :
     (forall x, Permutation (sh1 x) x) -> (forall x, Permutation (sh1' x) x) ->
     (forall x, Permutation (sh2 x) x) -> (forall x, Permutation (sh2' x) x) ->
     NoDup (map fst l) -> Permutation l l' ->
-    pipeline tset t0 tsrc parse exec split head_of o chart_name crds sh1 sh2 l
-    = pipeline tset t0 tsrc parse exec split head_of o chart_name crds sh1' sh2' l'.
+    pipeline tset t0 tsrc parse vstate v0 exec split head_of o chart_name crds sh1 sh2 l
+    = pipeline tset t0 tsrc parse vstate v0 exec split head_of o chart_name crds sh1' sh2' l'.
 Proof. exact pipeline_order_independent. Qed.
 Print Assumptions C05_order_independent.
 
@@ -35,6 +38,18 @@ Example C05_order_independent_witness :
                = ROk m hs ("parent notes" ++ nl ++ "notes of a" ++ nl ++ "notes of b") /\ List.length hs = 1.
 Proof. exact pipeline_witness. Qed.
 Print Assumptions C05_order_independent_witness.
+
+(* The execution order matters (seeded defect C05-1): an engine that parses in sorted order but
+   executes while ranging over the template map is NOT order independent as soon as templates
+   write to the values they share. *)
+Lemma C05_exec_map_order_refuted :
+  exists l l' : list (string * unit), NoDup (map fst l) /\ Permutation l l' /\
+    forall m m',
+      engine_render_exec_in_map_order unit tt unit (fun t _ _ => Some t) string EmptyString trace_exec l = inl m ->
+      engine_render_exec_in_map_order unit tt unit (fun t _ _ => Some t) string EmptyString trace_exec l' = inl m' ->
+      aget "c/templates/a.yaml" m <> aget "c/templates/a.yaml" m'.
+Proof. exact exec_map_order_refuted. Qed.
+Print Assumptions C05_exec_map_order_refuted.
 
 (* The theorem does not depend on Go's sorting algorithm: whatever sort.Sort / sort.Slice /
    sort.Strings return, if it is a sorted permutation of distinct keys it is the list the
